@@ -88,7 +88,10 @@ def inject(rng, d):
     elif kind == "harmless_out":
         rng.choice(nodes)[2] = True
     elif kind == "registry_only":
-        d["bbs"] = d.get("bbs", []) + [["u9", "ff", rng.choice([[], ["d"]]), rng.choice([[], ["q"]])]]
+        # one entry per instance name: a Python dict cannot hold two (a second `registry_only` edit used to add "u9" twice, which the
+        # dict resolved to the last and Coq's list_to_map to the first: a false alarm of the thorough tier, removed)
+        inst = "u9" if all(b[0] != "u9" for b in d.get("bbs", [])) else fresh({b[0] for b in d["bbs"]} | set(names), "u9")
+        d["bbs"] = d.get("bbs", []) + [[inst, "ff", rng.choice([[], ["d"]]), rng.choice([[], ["q"]])]]
     elif kind == "multi_dot_clean":
         # a node whose name has two dots and whose FIRST segment is a registered instance: documented rule = no error
         insts = [b[0] for b in d.get("bbs", [])]
@@ -287,6 +290,11 @@ def generate(rng, tier):
     n = 240 if tier == "quick" else 3000
     out = [gen_raw(rng) for _ in range(n // 4)] + [gen_near_clean(rng) for _ in range(n)]
     out += [gen_produced(rng, k) for k in range(n // 2)]
+    for case in out:                       # a registry is a dict: one entry per instance name
+        d = case.get("circuit")
+        if d and d.get("bbs"):
+            seen = set()
+            d["bbs"] = [b for b in d["bbs"] if not (b[0] in seen or seen.add(b[0]))]
     return out
 
 
